@@ -74,6 +74,32 @@ func obsEqual(a, b *hx.Obs) string {
 	return ""
 }
 
+// obsEquivalent compares two observations of logs that should hold the same state but were built
+// differently (e.g. one rebuilt by a loader): sets always, sequences only when the ordering is total.
+func obsEquivalent(a, b *hx.Obs, total bool) string {
+	if !model.SameKeys(a.Set, b.Set) {
+		return fmt.Sprintf("entry sets differ (%d vs %d)", len(a.Set), len(b.Set))
+	}
+	for k, e := range a.Set {
+		if b.Set[k].Digest != e.Digest {
+			return "entry " + hx.Short(k) + " content differs"
+		}
+	}
+	if !model.EqualAsSets(a.Heads, b.Heads) {
+		return "heads differ"
+	}
+	if total && !model.EqualSeq(a.Values, b.Values) {
+		return "values differ"
+	}
+	if total && !model.EqualSeq(a.JSONHeads, b.JSONHeads) {
+		return "manifest heads differ"
+	}
+	if a.Len != b.Len {
+		return "Len differs"
+	}
+	return ""
+}
+
 // ---------------------------------------------------------------- C01
 
 type stateFn struct {
@@ -92,6 +118,7 @@ func CheckC01(run *evid.Run) {
 	parallel(nh, func(i int) {
 		o2 := opts
 		o2.Failures = i%2 == 1 // every other history also contains refused operations and forks
+		o2.Extra = i%4 == 2    // a quarter also replaces replicas by what a loader rebuilds from their published heads
 		h := hx.Gen(run.Seed, i, o2)
 		table := map[string]*stateFn{}
 		var tr histTrack
@@ -196,10 +223,21 @@ func c01Twin(run *evid.Run, h *hx.History, twin int, table map[string]*stateFn, 
 					run.Violate("C01/refused-op-changed", det("op", s.Op), wit(where), "%s returned an error but changed the log: %s", s.Op, d)
 				}
 			}
-		case "fork":
+		case "fork", "setident":
 			x.Do(i)
-			run.Count("forks", 1)
+			run.Count("forks_and_identity_changes", 1)
 			observe(s.R, where)
+		case "reload":
+			before := hx.Observe(x.Logs[s.R])
+			res := x.Do(i)
+			if res.Err != nil {
+				run.Violate("C01/reload-error", det("loader", s.Payload), wit(where), "rebuilding a replica from its published heads failed: %v", res.Err)
+			}
+			after := observe(s.R, where)
+			run.Count("replicas_rebuilt_by_loader", 1)
+			if d := obsEquivalent(before, after, totalOrder(h.Order, before.Set)); d != "" {
+				run.Violate("C01/rebuilt-replica-differs", det("loader", s.Payload, "order", h.Order), wit(where), "a replica rebuilt from its own published heads (%s loader) exposes a different state: %s", s.Payload, d)
+			}
 		default:
 			res := x.Do(i)
 			if res.Err != nil {
@@ -349,6 +387,7 @@ func CheckC02(run *evid.Run) {
 	parallel(nh, func(i int) {
 		o2 := opts
 		o2.Failures = i%2 == 1
+		o2.Bursts = i%3 == 0
 		h := hx.Gen(run.Seed, i, o2)
 		x := hx.NewExec(h)
 		var tr histTrack
@@ -357,6 +396,30 @@ func CheckC02(run *evid.Run) {
 			res := x.Do(k)
 			if s.ExpectsError() {
 				run.Count("refused_operations", 1)
+			}
+			if s.Op == "burst" {
+				// every snapshot a concurrent reader took must be consistent in itself: heads = unreferenced entries of its values
+				fin := hx.Observe(x.Logs[s.R])
+				run.Count("concurrent_bursts", 1)
+				for _, sn := range res.BurstSnaps {
+					set := model.Set{}
+					okAll := true
+					for _, v := range sn[1] {
+						e, ok := fin.Set[v]
+						if !ok {
+							okAll = false
+							break
+						}
+						set[v] = e
+					}
+					run.Count("concurrent_snapshots_checked", 1)
+					if okAll && !model.EqualAsSets(sn[0], model.Heads(set)) {
+						m := histSample(h)
+						m["at"] = fmt.Sprintf("step %d %s", k, s)
+						run.Violate("C02/snapshot-heads", det("view", "ToSnapshot during concurrent use"), m, "a snapshot taken while the log was being appended to / merged into has heads %v but the unreferenced entries of its values are %v", hx.SortedShorts(sn[0]), hx.Shorts(model.Heads(set)))
+						break
+					}
+				}
 			}
 			o := hx.Observe(x.Logs[s.R])
 			tr.seeObs(o)
